@@ -44,12 +44,13 @@ func init() {
 			"(D3) the proof the responder verifies is the plaintext of a box whose key mixes DH(peer ephemeral, own account key); the requester seals its proof under a key mixing DH(own ephemeral, intended account key): a proof addressed to one responder cannot be forwarded to another. " +
 			"(D4) the secret half of the ephemeral DH comes only from box.GenerateKey(crypto/rand.Reader) executed inside the session (no cached, package-level or deterministic key). " +
 			"(D5) a peer-supplied X25519 point that reaches a non-contributory DH (box.Precompute, curve25519.ScalarMult) must pass a check that rejects low-order points: an API that errors on them (curve25519.X25519, ecdh ECDH) or an equality test on the point / the secret computed from it whose equal side rejects; the check must be enforced before any signature over the shared secret is produced and before success. " +
-			"(D6) the stream handler records the incoming request only after the responder handshake returned nil, only on the equal side of a comparison between the announced ShareableContact.Pk and the authenticated key (made in the handler itself or in a module helper, followed two levels deep, all of whose success returns lie on the equal side of a comparison between its key parameter and its contact parameter's Pk, called with the authenticated key and the received contact, its nil error being the accepting outcome), and the recorded contact carries the authenticated key; the sender marks the request sent only after its handshake returned nil, for the key it passed to the handshake. " +
+			"(D6) the stream handler records the incoming request only after the responder handshake returned nil, only on the equal side of a comparison between the announced ShareableContact.Pk and the authenticated key (made in the handler itself or in a module helper, followed two levels deep, all of whose success returns lie on the equal side of a comparison between its key parameter and its contact parameter's Pk, called with the authenticated key and the received contact, its nil error being the accepting outcome), and the recorded contact carries the authenticated key; every call of ContactRequestOutgoingSent outside the metadata store itself is reached only behind the nil-error side of the requester handshake — in the same function or through a callee all of whose success returns lie behind it; a test of an error variable or flag that may still hold its initial value (loop run zero times) does not count — and is given the key that was passed to the handshake. " +
+			"(D8) along each caller of a handshake entry point at most one protoio reader is constructed over the stream the handshake reads from when one of them is buffered (the varint-delimited reader owns a bufio.Reader that may already hold the next frame): the contact that follows the handshake must be read through the handshake's reader. " +
 			"(D7) the function that turns the DH outputs into the box keys (found by role: a module function on the path from a box Seal/Open key argument that calls a hash primitive) returns the digest of a hash fed with every one of its byte parameters: a returned array no digest is stored into, a hash.Hash.Sum whose result is discarded although its argument is not a zero-length slice with room for the digest (Sum appends), or a parameter (or all but one element of it) that never reaches the hash input are reported; the provenance models Sum accordingly, so D3 sees such a key as mixing nothing. " +
 			"Not decided: a symbolic (Dolev-Yao) proof of the protocol; unforgeability of Ed25519 and secrecy of NaCl box; that the two ends agree on nonces and box keys (any honest run decides that); distinctness of the two step nonces (the step keys differ, so it is not a necessary condition); that a box-open failure is tested (a failed open yields nil plaintext which the following parse and Verify reject); rejection of non-Ed25519 identity keys (three redundant checks exist, none individually necessary); frame bounds (C18); the reference value of an equality-based low-order check; the order of two assignments to the same field inside one function (provenance is flow-insensitive).",
 		Trusted:     []string{"golang.org/x/tools go/packages+go/ssa (v0.29.0)", "semantics of nacl/box, curve25519.X25519 (errors on low-order input), libp2p crypto.PubKey.Verify", "go/types"},
 		Assumptions: []string{"dependencies behave as documented; only module code is analysed", "data flow through struct fields is approximated per (struct type, field) over the functions reachable from one entry point"},
-		Floors:      map[string]int{"D1": 4, "D2": 1, "D3": 2, "D4": 2, "D5": 2, "D6": 5, "D7": 1},
+		Floors:      map[string]int{"D1": 4, "D2": 1, "D3": 2, "D4": 2, "D5": 2, "D6": 5, "D7": 1, "D8": 2},
 		Borrows: []Borrow{
 			{From: "C18", Rules: []string{"D3", "D4"}, Why: "every handshake step is one varint-delimited frame (pkg/protoio/varint.go is an anchor of this property): a frame whose body is read with a single Read decodes stale bytes of the previous frame, so a truncated acknowledge is taken for Success=true and honest parties on a fragmenting stream fail to complete"},
 		},
@@ -645,7 +646,24 @@ func (st *c06State) content(addr ssa.Value, fr *c06Frame, depth int) {
 			return
 		}
 		key := c06FieldKey(a)
+		// when the object is a known allocation, accesses through a different allocation
+		// cannot concern it (distinct objects); accesses through parameters or loaded pointers may
+		baseAl, _ := base.(*ssa.Alloc)
+		otherObject := func(addr ssa.Value) bool {
+			if baseAl == nil {
+				return false
+			}
+			fa, ok := addr.(*ssa.FieldAddr)
+			if !ok {
+				return false
+			}
+			al2, ok := stripConv(fa.X).(*ssa.Alloc)
+			return ok && al2 != baseAl
+		}
 		for _, s := range st.wk.idx.stores[key] {
+			if otherObject(s.Addr) {
+				continue
+			}
 			sfr := (*c06Frame)(nil)
 			if fr != nil && s.Parent() == fr.fn {
 				sfr = fr
@@ -654,10 +672,16 @@ func (st *c06State) content(addr ssa.Value, fr *c06Frame, depth int) {
 		}
 		el, _ := c06StructOf(a)
 		for _, al := range st.wk.idx.allocs[types.TypeString(el, nil)] {
+			if baseAl != nil && al != baseAl {
+				continue
+			}
 			st.writes(al, nil, depth+1, true)
 		}
 		if c06IsRefType(a.Type().(*types.Pointer).Elem()) {
 			for _, ld := range st.wk.idx.loads[key] {
+				if otherObject(ld.X) {
+					continue
+				}
 				st.writes(ld, nil, depth+1, false)
 			}
 		}
@@ -1293,7 +1317,7 @@ func (g *c06Guard) isVerifier(fn *ssa.Function) bool {
 	if len(acc) == 0 && len(verdicts) == 0 {
 		return false
 	}
-	if len(bypassReturns(fn, acc, verdicts)) == 0 {
+	if len(c06BypassReturns(fn, acc, verdicts)) == 0 {
 		g.memo[fn] = 1
 		return true
 	}
@@ -1302,7 +1326,7 @@ func (g *c06Guard) isVerifier(fn *ssa.Function) bool {
 
 func (g *c06Guard) bypass(fn *ssa.Function) []*ssa.Return {
 	acc, verdicts := g.accept(fn)
-	return bypassReturns(fn, acc, verdicts)
+	return c06BypassReturns(fn, acc, verdicts)
 }
 
 // passBefore: on every path from the entry of fn, an accepting edge is taken before target
@@ -1523,6 +1547,7 @@ func runC06(c *Ctx) {
 	}
 	c06RuleD6(c, entryReq, entryResp)
 	c06RuleD7(c, roles)
+	c06RuleD8(c, []*ssa.Function{entryReq, entryResp})
 }
 
 // ---- D7: the box keys are a hash of all the secrets handed to the key-derivation function.
@@ -2311,51 +2336,450 @@ func c06RuleD6(c *Ctx, entryReq, entryResp *ssa.Function) {
 	}
 
 	// ---------- requester side
-	nReq := 0
-	for _, cs := range w.callGraph().callers[entryReq] {
-		h := cs.Caller
-		hs, ok := cs.Instr.(*ssa.Call)
-		if !ok || !inModule(h) || fnPkg(h).Path() == c06PkgHS {
-			continue
+	c06RuleD6Sent(c, entryReq, sentFn)
+}
+
+// c06ResolveSpill looks through the result spill of functions with defer, also when the named
+// result lives on the heap because a deferred closure reads it (retResults gives up there):
+// the value returned is the last one stored in the returning block, provided no closure or
+// callee can write the result variable.
+func c06ResolveSpill(v ssa.Value) ssa.Value {
+	for i := 0; i < 4; i++ {
+		ld, ok := v.(*ssa.UnOp)
+		if !ok || ld.Op != token.MUL {
+			return v
 		}
-		nReq++
-		c.analysed(h)
-		hn := fnName(h)
-		errv := errVerdict(hs)
-		var acc []edge
-		if errv != nil {
-			acc = edgesOfVerdict(errv).Accept
+		al, ok := ld.X.(*ssa.Alloc)
+		if !ok || al.Referrers() == nil {
+			return v
 		}
-		var sent []ssa.CallInstruction
-		for _, ci := range callsIn(h, func(_ string, cc *ssa.CallCommon) bool { return staticCallee(cc) == sentFn }) {
-			sent = append(sent, ci)
-		}
-		if len(sent) == 0 {
-			c.note("%s runs the requester handshake but never marks the request sent", hn)
-			continue
-		}
-		okA := errv != nil
-		okK := true
-		hsArgs := hs.Common().Args
-		wk := c06NewWalker(w, map[*ssa.Function]bool{h: true}, nil)
-		for _, s := range sent {
-			if !dominatedBy(acc, s) {
-				okA = false
+		for _, r := range *al.Referrers() {
+			switch u := r.(type) {
+			case *ssa.Store:
+				if u.Val == ssa.Value(al) {
+					return v
+				}
+			case *ssa.UnOp, *ssa.DebugRef:
+			case *ssa.MakeClosure:
+				f, _ := u.Fn.(*ssa.Function)
+				for bi, b := range u.Bindings {
+					if b != ssa.Value(al) || f == nil || bi >= len(f.FreeVars) || f.FreeVars[bi].Referrers() == nil {
+						continue
+					}
+					for _, r2 := range *f.FreeVars[bi].Referrers() {
+						if _, isLoad := r2.(*ssa.UnOp); !isLoad {
+							if _, dbg := r2.(*ssa.DebugRef); !dbg {
+								return v
+							}
+						}
+					}
+				}
+			default:
+				return v
 			}
-			sa := s.Common().Args
-			if len(sa) == 3 && len(hsArgs) > 0 {
-				a, b := wk.prov(sa[2]), wk.prov(hsArgs[len(hsArgs)-1])
-				if stripConv(sa[2]) != stripConv(hsArgs[len(hsArgs)-1]) && !c06SameStrings(a.atomList(), b.atomList()) {
+		}
+		var last ssa.Value
+		for _, in := range ld.Block().Instrs {
+			if in == ssa.Instruction(ld) {
+				break
+			}
+			if st, ok := in.(*ssa.Store); ok && st.Addr == ssa.Value(al) {
+				last = st.Val
+			}
+		}
+		if last == nil {
+			return v
+		}
+		v = last
+	}
+	return v
+}
+
+// c06BypassReturns is bypassReturns with c06ResolveSpill applied to the returned error.
+func c06BypassReturns(fn *ssa.Function, accept []edge, verdicts []ssa.Value) []*ssa.Return {
+	cut := map[edge]bool{}
+	for _, e := range accept {
+		cut[e] = true
+	}
+	r := reach(fn.Blocks[0], cut)
+	idx := errResultIndex(fn.Signature)
+	var out []*ssa.Return
+	for _, ret := range returnsOf(fn) {
+		if !r[ret.Block()] {
+			continue
+		}
+		if idx < 0 || idx >= len(ret.Results) {
+			out = append(out, ret)
+			continue
+		}
+		ev := c06ResolveSpill(ret.Results[idx])
+		tail := false
+		for _, v := range verdicts {
+			if ev == v {
+				tail = true
+			}
+		}
+		if tail {
+			continue
+		}
+		if !definitelyNonNilErr(ev, ret.Block(), 0) {
+			out = append(out, ret)
+		}
+	}
+	return out
+}
+
+// c06RuleD6Sent: every place of the module (outside the metadata store itself) that marks a
+// contact request as sent does so only after a requester handshake succeeded, for that key.
+func c06RuleD6Sent(c *Ctx, entryReq, sentFn *ssa.Function) {
+	w := c.W
+	// the requester handshake's nil error is the accepting outcome; callees all of whose
+	// success returns lie behind it carry the guarantee to their callers
+	g := c06NewGuard(w, func(fn *ssa.Function, in ssa.Instruction) ([]edge, []ssa.Value) {
+		call, ok := in.(*ssa.Call)
+		if !ok || staticCallee(call.Common()) != entryReq {
+			return nil, nil
+		}
+		if v := errVerdict(call); v != nil {
+			return nil, []ssa.Value{v}
+		}
+		return nil, nil
+	})
+	var recvT types.Type
+	if r := sentFn.Signature.Recv(); r != nil {
+		recvT = r.Type()
+	}
+	ownMethod := func(fn *ssa.Function) bool {
+		for f := fn; f != nil; f = f.Parent() {
+			if r := f.Signature.Recv(); r != nil && recvT != nil && types.Identical(r.Type(), recvT) {
+				return true
+			}
+		}
+		return false
+	}
+	// scope for the key comparison: the root-package functions from which the handshake is
+	// reached, and the functions that mark
+	scope := map[*ssa.Function]bool{}
+	var hsCalls []*ssa.Call
+	q := []*ssa.Function{entryReq}
+	seen := map[*ssa.Function]bool{entryReq: true}
+	for len(q) > 0 {
+		f := q[0]
+		q = q[1:]
+		for _, cs := range w.callGraph().callers[f] {
+			if p := fnPkg(cs.Caller); p == nil || p.Path() != pkgRoot {
+				continue
+			}
+			if f == entryReq {
+				if call, ok := cs.Instr.(*ssa.Call); ok {
+					hsCalls = append(hsCalls, call)
+				}
+			}
+			if !seen[cs.Caller] {
+				seen[cs.Caller] = true
+				scope[cs.Caller] = true
+				q = append(q, cs.Caller)
+			}
+		}
+	}
+	if len(hsCalls) == 0 {
+		c.undecided("D6", "requester caller", token.NoPos, "no function of the root package calls RequestUsingReaderWriter")
+		return
+	}
+	var sites []ssa.CallInstruction
+	for _, fn := range w.ModFuncs {
+		if !inModule(fn) || ownMethod(fn) {
+			continue
+		}
+		for _, ci := range callsIn(fn, func(_ string, cc *ssa.CallCommon) bool { return staticCallee(cc) == sentFn }) {
+			sites = append(sites, ci)
+			for f := fn; f != nil; f = f.Parent() {
+				scope[f] = true
+			}
+		}
+	}
+	c.count("mark_sent_sites", len(sites))
+	if len(sites) == 0 {
+		c.undecided("D6", "mark sent", token.NoPos, "no function outside the metadata store calls ContactRequestOutgoingSent: where an outgoing request becomes 'sent' is not recognised")
+		return
+	}
+	wk := c06NewWalker(w, scope, nil)
+	keyDesc := func(p *c06Prov) []string { return append(c06KeyBirths(c, p), p.atomList()...) }
+	for _, s := range sites {
+		fn := s.Parent()
+		c.analysed(fn)
+		hn := fnName(fn)
+		acc, _ := g.accept(fn)
+		guarded := len(acc) > 0 && c06GuardedWithPhis(fn, acc, s)
+		why := "no requester handshake (or callee that returns nil only after one) is run in this function before the call"
+		if len(acc) > 0 {
+			why = "the call is reachable without the accepting side of the handshake's error having been taken (error discarded, not tested, or tested through a variable that may still hold its initial nil — a loop that runs zero times)"
+		}
+		c.check(guarded, "D6", hn+"+sent after handshake", posOf(s), "the request is marked sent only on the nil-error side of the requester handshake",
+			"ContactRequestOutgoingSent is reachable although no requester handshake succeeded: "+why+"; the request counts as delivered to a peer that did not prove the intended key")
+		sa := s.Common().Args
+		okK := len(sa) == 3
+		if okK {
+			a := wk.prov(sa[2])
+			for _, hs := range hsCalls {
+				ha := hs.Common().Args
+				if len(ha) == 0 {
+					continue
+				}
+				if stripConv(sa[2]) == stripConv(ha[len(ha)-1]) {
+					continue
+				}
+				if b := wk.prov(ha[len(ha)-1]); !c06SameStrings(keyDesc(a), keyDesc(b)) {
 					okK = false
 				}
 			}
 		}
-		c.check(okA, "D6", hn+"+sent after handshake", posOf(hs), "the request is marked sent only on the nil-error side of the requester handshake",
-			"ContactRequestOutgoingSent is reachable although the requester handshake failed (error discarded or not tested): the request counts as delivered to a peer that did not prove the intended key")
-		c.check(okK, "D6", hn+"+sent key", posOf(hs), "the key marked as sent is the key the handshake authenticated", "ContactRequestOutgoingSent is given a different key than the one passed to the handshake")
+		c.check(okK, "D6", hn+"+sent key", posOf(s), "the key marked as sent is the key the handshake authenticated", "ContactRequestOutgoingSent is given a different key than the one passed to the handshake")
 	}
-	if nReq == 0 {
-		c.undecided("D6", "requester caller", token.NoPos, "no module function outside internal/handshake calls RequestUsingReaderWriter")
+}
+
+// c06GuardedWithPhis: target executes only after one of the accepting edges acc was taken.
+// Besides plain reachability, a test of a phi (a flag or an error variable assigned on several
+// paths) counts as accepting when every incoming value that can satisfy the test arrives from
+// a block that is itself only reachable behind an accepting edge. An error variable that may
+// still hold its initial nil therefore does not count.
+func c06GuardedWithPhis(fn *ssa.Function, acc []edge, target ssa.Instruction) bool {
+	cut := map[edge]bool{}
+	for _, e := range acc {
+		cut[e] = true
+	}
+	var mayAccept func(v ssa.Value, seen map[*ssa.Phi]bool) bool
+	mayAccept = func(v ssa.Value, seen map[*ssa.Phi]bool) bool {
+		switch x := v.(type) {
+		case *ssa.Const:
+			if b, ok := constBool(x); ok {
+				return b
+			}
+			return x.Value == nil // nil error / nil pointer: the accepting value
+		case *ssa.Phi:
+			if seen[x] {
+				return false
+			}
+			seen[x] = true
+			for _, e := range x.Edges {
+				if mayAccept(e, seen) {
+					return true
+				}
+			}
+			return false
+		}
+		if isErrorType(v.Type()) && definitelyNonNilErr(v, nil, 0) {
+			return false
+		}
+		return true
+	}
+	phiOf := func(cond ssa.Value) *ssa.Phi {
+		for i := 0; i < 3; i++ {
+			switch x := cond.(type) {
+			case *ssa.Phi:
+				return x
+			case *ssa.UnOp:
+				if x.Op != token.NOT {
+					return nil
+				}
+				cond = x.X
+			case *ssa.BinOp:
+				if x.Op != token.EQL && x.Op != token.NEQ {
+					return nil
+				}
+				if _, isC := x.Y.(*ssa.Const); isC {
+					cond = x.X
+				} else if _, isC := x.X.(*ssa.Const); isC {
+					cond = x.Y
+				} else {
+					return nil
+				}
+			default:
+				return nil
+			}
+		}
+		return nil
+	}
+	for iter := 0; iter < 8; iter++ {
+		open := reach(fn.Blocks[0], cut)
+		changed := false
+		for _, b := range fn.Blocks {
+			if !open[b] || len(b.Instrs) == 0 {
+				continue
+			}
+			ifi, ok := b.Instrs[len(b.Instrs)-1].(*ssa.If)
+			if !ok {
+				continue
+			}
+			p := phiOf(ifi.Cond)
+			if p == nil {
+				continue
+			}
+			onTrue, ok := condPolarity(ifi.Cond, p, 0)
+			if !ok {
+				continue
+			}
+			e := edge{b, b.Succs[1]}
+			if onTrue {
+				e = edge{b, b.Succs[0]}
+			}
+			if cut[e] {
+				continue
+			}
+			justified := true
+			for i, v := range p.Edges {
+				pred := p.Block().Preds[i]
+				if mayAccept(v, map[*ssa.Phi]bool{p: true}) && open[pred] && !cut[edge{pred, p.Block()}] {
+					justified = false
+				}
+			}
+			if justified {
+				cut[e] = true
+				changed = true
+			}
+		}
+		if !changed {
+			break
+		}
+	}
+	return !reach(fn.Blocks[0], cut)[target.Block()]
+}
+
+// ---- D8: one buffered reader per stream.
+//
+// The handshake reads its frames through a protoio reader; the varint-delimited reader owns
+// a bufio.Reader, which may already hold the bytes of the frame that follows the handshake
+// (acknowledge and contact arrive in one segment). Reading what follows through a second
+// reader over the same stream then blocks although both parties are honest: the handshake
+// completes on one side and the request is never recorded on the other.
+func c06RuleD8(c *Ctx, entries []*ssa.Function) {
+	w := c.W
+	pio := w.pkg(modulePath + "/pkg/protoio")
+	if pio == nil {
+		c.undecided("D8", "protoio", token.NoPos, "package pkg/protoio not found")
+		return
+	}
+	var readerI *types.Interface
+	if o := pio.Pkg.Scope().Lookup("Reader"); o != nil {
+		readerI, _ = o.Type().Underlying().(*types.Interface)
+	}
+	if readerI == nil {
+		c.undecided("D8", "protoio.Reader", token.NoPos, "interface protoio.Reader not found")
+		return
+	}
+	// reader constructors: exported functions of protoio taking an io.Reader first and returning a Reader
+	ctors := map[*ssa.Function]bool{}
+	buffered := map[*ssa.Function]bool{}
+	for _, m := range pio.Members {
+		fn, ok := m.(*ssa.Function)
+		if !ok || fn.Blocks == nil || fn.Signature.Params().Len() == 0 || fn.Signature.Results().Len() != 1 {
+			continue
+		}
+		if types.TypeString(fn.Signature.Params().At(0).Type(), nil) != "io.Reader" || !types.Implements(fn.Signature.Results().At(0).Type(), readerI) {
+			continue
+		}
+		ctors[fn] = true
+		for f := range w.reachableFuncs([]*ssa.Function{fn}, 2) {
+			if len(callsIn(f, func(k string, _ *ssa.CallCommon) bool { return k == "bufio.NewReader" || k == "bufio.NewReaderSize" })) > 0 {
+				buffered[fn] = true
+			}
+		}
+	}
+	c.count("protoio_reader_constructors", len(ctors))
+	n := 0
+	for _, entry := range entries {
+		for _, cs := range w.callGraph().callers[entry] {
+			h := cs.Caller
+			hs, ok := cs.Instr.(*ssa.Call)
+			if !ok || !inModule(h) || fnPkg(h).Path() == c06PkgHS {
+				continue
+			}
+			n++
+			c.analysed(h)
+			construct := fnName(h) + "+stream reader"
+			scope := map[*ssa.Function]bool{h: true}
+			for f := range w.reachableFuncs([]*ssa.Function{h}, 2) {
+				if p := fnPkg(f); p != nil && p.Path() == pkgRoot && f.Blocks != nil {
+					scope[f] = true
+				}
+			}
+			wk := c06NewWalker(w, scope, h)
+			type site struct {
+				call *ssa.Call
+				key  string
+			}
+			var sites []site
+			for _, fn := range c06SortedFuncs(scope) {
+				for _, ci := range callsIn(fn, func(_ string, cc *ssa.CallCommon) bool { return ctors[staticCallee(cc)] }) {
+					call, ok := ci.(*ssa.Call)
+					if !ok || len(call.Common().Args) == 0 {
+						continue
+					}
+					sites = append(sites, site{call: call})
+				}
+			}
+			for i := range sites {
+				wk.stop[sites[i].call] = fmt.Sprintf("reader#%d", i)
+			}
+			for i := range sites {
+				p := wk.prov(sites[i].call.Common().Args[0])
+				var pos []string
+				for _, s := range p.sitesKeyed(func(string) bool { return true }) {
+					pos = append(pos, c.pos(posOf(s)))
+				}
+				sites[i].key = strings.Join(p.atomList(), ",") + "|" + strings.Join(pos, ",")
+			}
+			// the reader handed to the handshake
+			var rd ssa.Value
+			for _, a := range hs.Common().Args {
+				if types.Implements(a.Type(), readerI) {
+					rd = a
+					break
+				}
+			}
+			if rd == nil {
+				c.undecided("D8", construct, posOf(hs), "no argument of the handshake call is a protoio.Reader")
+				continue
+			}
+			rp := wk.prov(rd)
+			mine := -1
+			for i := range sites {
+				if rp.has(fmt.Sprintf("reader#%d", i)) {
+					if mine >= 0 {
+						mine = -2 // several candidates
+						break
+					}
+					mine = i
+				}
+			}
+			switch {
+			case mine == -1 && len(sites) == 0:
+				c.ok("D8", construct, posOf(hs), "the handshake's reader is handed in by the caller and no other reader is constructed here")
+			case mine < 0:
+				c.undecided("D8", construct, posOf(hs), "the reader given to the handshake cannot be traced to one constructor call (%d constructions in reach): stream ownership not decided", len(sites))
+			default:
+				var others []string
+				anyBuf := buffered[staticCallee(sites[mine].call.Common())]
+				for i := range sites {
+					if i == mine {
+						continue
+					}
+					same := sites[i].key == sites[mine].key || stripConv(sites[i].call.Common().Args[0]) == stripConv(sites[mine].call.Common().Args[0])
+					if same {
+						others = append(others, fmt.Sprintf("%s at %s", c06ShortKey(calleeKey(sites[i].call.Common())), c.pos(posOf(sites[i].call))))
+						if buffered[staticCallee(sites[i].call.Common())] {
+							anyBuf = true
+						}
+					}
+				}
+				c.check(len(others) == 0 || !anyBuf, "D8", construct, posOf(sites[mine].call),
+					fmt.Sprintf("one reader (%s) is constructed over the stream and used by the handshake and after it", c06ShortKey(calleeKey(sites[mine].call.Common()))),
+					fmt.Sprintf("a second reader is constructed over the stream the handshake reads from (%s): the handshake's buffered reader may already hold the bytes of the next frame, so reading it through another reader blocks — honest parties, handshake complete on both sides, but the request is never recorded", strings.Join(others, ", ")))
+			}
+		}
+	}
+	if n == 0 {
+		c.undecided("D8", "handshake callers", token.NoPos, "no module function outside internal/handshake calls the handshake entry points")
 	}
 }
 
@@ -2403,7 +2827,7 @@ func c06KeyEqSummary(w *World, g *ssa.Function, depth int, busy map[*ssa.Functio
 		return keyOf, pkOf
 	}
 	guards := func(acc []edge, verdicts []ssa.Value) bool {
-		return len(acc) > 0 && len(bypassReturns(g, acc, verdicts)) == 0 || len(acc) == 0 && len(verdicts) > 0 && len(bypassReturns(g, nil, verdicts)) == 0
+		return len(acc) > 0 && len(c06BypassReturns(g, acc, verdicts)) == 0 || len(acc) == 0 && len(verdicts) > 0 && len(c06BypassReturns(g, nil, verdicts)) == 0
 	}
 	seen := map[c06EqSummary]bool{}
 	var out []c06EqSummary
